@@ -143,6 +143,13 @@ def check(case, ctx):
             if d > (1e-7 / g) * np.sqrt(sc):
                 ctx.fail("component-coordinates", "component %d differs between spaces beyond sign: %.3e (gap %.1e)" % (j, d, g))
             ctx.count("components_compared")
+    # ---- space='auto' / None and svd_solver='auto' pick one of the routes and must give the same latent space ------------
+    for sp in ("auto", None):
+        A = fit_one(case, sp, "auto", ctx)
+        ctx.close("auto-route:TT^T", A["T"] @ A["T"].T, G, tol * sc, "space=%r, svd_solver='auto' latent Gram matrix" % (sp,))
+        ctx.close("auto-route:pred", A["pred"], F["pred"], 10 * tol * ysc, "space=%r predictions" % (sp,))
+        want = "feature" if n > m else "sample"
+        ctx.true("auto-route:space_", A["est"].space_ == want, "space=%r resolved to %r for a %dx%d matrix" % (sp, A["est"].space_, n, m))
     # ---- truncated solvers -----------------------------------------------------------------------------------
     solver = case["solver"]
     if solver != "full":
